@@ -12,6 +12,10 @@ Ties (model = lean/UwgVerif/Model/Csv.lean, driver Drv/C01.lean):
       region compared with writeEpw;
   (m) composition A (props/morph.py, model Model/Morph.lean, theorems Props/Morph.lean): the whole pipeline
       generate; simulate(toy physics); write_epw vs Lean `morph`, complete files byte for byte.
+  (y) round 5 (helpers in harness/v1_util.py): output names NEAR the rural name (near_name_family: the stem, other cases
+      of the extension, trailing dot / blank, './' spellings ... - a name normalised after the refusal was decided),
+      also through the command line; simulate() failed or interrupted at a chosen step, the caller goes on with
+      write_epw() (interrupted_family: no partial morph, then the normal sequence equals a fresh object).
 """
 import contextlib
 import csv
@@ -544,6 +548,10 @@ def circumstances(chk):
             extra = ['--new-epw-dir', dd, '--new-epw-name', 'rural.epw']
         elif how == 'default-dir':
             extra = ['--new-epw-name', 'rural.epw']
+        elif how == 'stem-as-name':            # (round 5) the name of the rural file without its extension: another file
+            extra = ['--new-epw-name', 'rural']
+        elif how == 'stem-as-name, explicit-dir':
+            extra = ['--new-epw-dir', dd, '--new-epw-name', 'rural']
         else:
             os.makedirs(os.path.join(dd, 'out'))
             if how == 'hardlinked-name':
@@ -556,6 +564,7 @@ def circumstances(chk):
                 'rural_unchanged': U1.fhash(rural) == h0, 'message': (se or so).strip().split('\n')[-1][:160]}
     cli_hows = ['explicit-dir', 'symlinked-name'] + (['default-dir', 'hardlinked-name'] if thorough else
                                                       [rng.choice(['default-dir', 'hardlinked-name'])])
+    cli_hows += ['stem-as-name', 'stem-as-name, explicit-dir'] if thorough else [rng.choice(['stem-as-name', 'stem-as-name, explicit-dir'])]
     jobs = [lambda: U1.call_child(work, 'u1_util:child_protected',
                                   dict(base=os.path.join(work, 'prot_plain'), hows=hows, source=small, full=False),
                                   optimize=False, tag='prot'),
@@ -609,9 +618,313 @@ def circumstances(chk):
                'symlinked / chained / relative-symlinked / hard-linked name, rural file given through a symlink) with a '
                'synthetic one-hour state, %d of them after a real generate + simulate, each in a plain and in a `python -O` '
                'interpreter (asserts stripped); and %s through `python [-O] -m uwg simulate param --new-epw-dir/--new-epw-'
-               'name`: the rural bytes are hashed before / after and must not change, and the verdict (refused / exit '
+               'name` (stem-as-name: the name of the rural file without its extension - ANOTHER file, which a name '
+               'normalisation after the refusal must not turn into the rural file): the rural bytes are hashed before / after '
+               'and must not change, and the verdict (refused / exit '
                'status) must be the same in both interpreter modes' % (len(full_hows), ', '.join(cli_hows)),
                mismatches=bp, branches=pb)
+
+
+
+# ----------------------------------------------------------------------------- round 5: names near the rural name
+def near_name_family(chk, UWG):
+    """Output names NEAR the rural name. The refusal "the output is the rural file itself" is decided on one spelling of
+    the output path; whatever the writer does to the name afterwards (appending an extension, trimming, changing case)
+    must not turn an accepted name into the rural file. Every case: a synthetic rural file under one of several names
+    (with / without / with an unusual extension), the real write_epw with new_epw_name derived from it (the stem, the
+    stem + '.', other cases of the extension, the extension doubled, a trailing blank, the last character dropped,
+    './' spellings, ...) and new_epw_dir = None / the rural directory / a dotted spelling of it: the rural bytes must not
+    change; if write_epw returns, the file it reports is judged by the T2/T3 oracle."""
+    import v1_util as V
+    rng = chk.rng
+    big = chk.tier == 'thorough'
+    n = bad = 0
+    br = {}
+    idx = 9500
+    for rname in V.RURAL_NAMES:
+        cands = V.near_names(rname)
+        for lab, oname in cands:
+            dirs = ['default', 'rural-dir', 'dotted'] if big else [rng.choice(['default', 'rural-dir', 'dotted'])]
+            for dk in dirs:
+                idx += 1
+                sy = make_synth(chk, rng, idx, 'plain')
+                newp = os.path.join(sy.dir, rname)
+                os.rename(sy.path, newp)
+                sy.name, sy.path = rname, newp
+                ndir = None if dk == 'default' else sy.dir if dk == 'rural-dir' else os.path.join(sy.dir, '.', '')
+                m = UWG(sy.path, new_epw_dir=ndir, new_epw_name=oname)
+                m._read_epw()
+                m.UCMData = [types.SimpleNamespace(canTemp=273.15 + v[0], Tdp=v[1], canRHum=v[2]) for v in sy.vals]
+                m.WeatherData = [types.SimpleNamespace(wind=v[3]) for v in sy.vals]
+                m.simTime = types.SimpleNamespace(timeInitial=sy.s + 8)
+                m.epw_precision = sy.p
+                written = [((273.15 + v[0]) - 273.15, v[1], v[2], v[3]) for v in sy.vals]
+                raised = None
+                try:
+                    with contextlib.redirect_stdout(io.StringIO()):
+                        m.write_epw()
+                except Exception as e:  # noqa: BLE001
+                    raised = '%s: %s' % (type(e).__name__, str(e)[:120])
+                n += 1
+                same = os.path.realpath(os.path.join(sy.dir, oname)) == os.path.realpath(sy.path)
+                br['names the rural file (refused)' if same else 'another file'] = br.get(
+                    'names the rural file (refused)' if same else 'another file', 0) + 1
+                msg = None
+                if hashlib.sha256(open(sy.path, 'rb').read()).hexdigest() != sy.hash:
+                    msg = 'the rural file was modified (write_epw %s; it reports the output path %r)' % (
+                        'raised ' + raised if raised else 'returned normally', m.new_epw_path)
+                elif raised is None:
+                    msg = oracle_file(sy.path, m.new_epw_path, sy.s, written, sy.p, sy.hash)
+                elif not same:
+                    msg = 'write_epw refused an output name that is not the rural file: %s' % raised
+                if msg:
+                    bad += 1
+                    if bad <= 3:
+                        chk.violation('impl-violation', 'rural file protected / morph written for an output name near the rural '
+                                      'name (%s)' % lab,
+                                      case={'replay_kind': 'near-name', 'rural file name': rname, 'new_epw_name': oname, 'how the name is derived': lab,
+                                            'new_epw_dir': {'default': None, 'rural-dir': '<directory of the rural file>',
+                                                            'dotted': '<directory of the rural file>/./'}[dk],
+                                            'window_start_row': sy.s, 'hours': sy.n, 'precision': sy.p,
+                                            'how': 'harness/props/c01.py near_name_family (synthetic state, the real write_epw)'},
+                                      observed=msg, expected='rural bytes unchanged; the written file is the rural file with '
+                                                             'fields 6,7,8,21 of the window rows rewritten')
+    chk.direct('rural-file-protected(output names NEAR the rural name)', n, n,
+               'the real write_epw (synthetic state) with new_epw_name derived from the name of the rural file - rural names '
+               'with the usual extension, an upper-case / mixed-case one, two extensions, a foreign last extension, none at '
+               'all (%d names) x the stem, the stem + ".", the stem + .epw / .EPW / .Epw, the name + .epw / .EPW / .bak, the '
+               'name without its last character, with a trailing blank, in upper / lower / swapped case, the stem + '
+               '.epw.epw, "./" spellings, the stem + _UWG, the stem of the stem - x new_epw_dir None / the rural directory / '
+               'a dotted spelling (quick: one of the three at random). Where the name is another spelling of the rural file the '
+               'call must be refused; otherwise it must succeed. Always: rural bytes unchanged (hash), and the file reported '
+               'by new_epw_path after the call passes the T2/T3 oracle' % len(V.RURAL_NAMES), mismatches=bad, branches=br)
+
+
+# ----------------------------------------------------------------------------- round 5: failed / interrupted simulate()
+def interrupted_family(chk, UWG):
+    """simulate() fails or is interrupted at a chosen step (an Exception as the building model raises it, ValueError,
+    ZeroDivisionError, and the BaseExceptions KeyboardInterrupt / SystemExit / GeneratorExit, MemoryError), the caller
+    catches it and calls write_epw() all the same: no file may claim to be the morph of the window unless every hour of
+    the window was simulated (the call raises and nothing is written, an earlier file stays as it was) and the rural file
+    is untouched. Then the normal sequence generate(); simulate(); write_epw() on the SAME object: the file passes the
+    T2/T3 oracle and equals, byte for byte, the file of a fresh object."""
+    import v1_util as V
+    import u1_util as U1
+    rng = chk.rng
+    big = chk.tier == 'thorough'
+    work = os.path.join(chk.work(), 'intr')
+    os.makedirs(work)
+    src_epw = os.path.join(core.REPO, 'resources', 'SGP_Singapore.486980_IWEC.epw')
+    res_uwg = os.path.join(core.REPO, 'resources', 'initialize_singapore.uwg')
+    n = bad = 0
+    br = {}
+
+    def model(rural, outdir, name, mo, dy, nd, dt, prec):
+        m = UWG.from_param_file(res_uwg, rural, new_epw_dir=outdir, new_epw_name=name)
+        m.month, m.day, m.nday, m.dtsim = mo, dy, nd, dt
+        m.epw_precision = prec
+        return m
+
+    def vals_of(m):
+        return [(u.canTemp - 273.15, u.Tdp, u.canRHum, w.wind) for u, w in zip(m.UCMData, m.WeatherData)]
+
+    def report(what, case, observed, expected):
+        nonlocal bad
+        bad += 1
+        if bad <= 3:
+            chk.violation('impl-violation', what, case=case, observed=observed, expected=expected)
+
+    scen = 1 if not big else 3
+    for si in range(scen):
+        d = os.path.join(work, 's%d' % si)
+        os.makedirs(d)
+        rural = U1.small_epw(src_epw, os.path.join(d, 'rural_first_weeks.epw'), nrows=24 * 21)
+        rural_rows = pyparse(rural)
+        h0 = hashlib.sha256(open(rural, 'rb').read()).hexdigest()
+        nd = rng.choice([1, 2, 2, 3])
+        dy = rng.randint(1, 18)
+        dt = rng.choice([300, 600, 900, 450])
+        prec = rng.choice([0, 2, 3, 4])          # (the rural text has one decimal in the dry-bulb column)
+        s = 24 * (dy - 1)
+        N = 24 * nd
+        # the fresh object: what the normal sequence must give (physics stubbed here and there alike)
+        fresh = model(rural, os.path.join(d, 'fresh'), 'morph.epw', 1, dy, nd, dt, prec)
+        os.makedirs(os.path.join(d, 'fresh'))
+        with core.quiet():
+            fresh.generate()
+            with V.failing_physics(fresh, None):
+                fresh.simulate()
+            fresh.write_epw()
+        fresh_bytes = open(fresh.new_epw_path, 'rb').read()
+        fmsg = oracle_file(rural, fresh.new_epw_path, s, vals_of(fresh), prec, h0)
+        if fmsg:
+            report('T2/T3 oracle on a run with the physics stubbed', {'month': 1, 'day': dy, 'nday': nd, 'dtsim': dt,
+                                                                      'precision': prec}, fmsg, 'a morph of the window')
+        kinds = list(V.FAILURES) if big else rng.sample(V.FAILURES[:3], 2) + rng.sample(V.FAILURES[3:], 3)
+        for ki, (kname, make) in enumerate(kinds):
+            point = V.FAIL_POINTS[(ki + si) % len(V.FAIL_POINTS)] if not big else rng.choice(V.FAIL_POINTS)
+            if nd == 1 and point == V.FAIL_POINTS[5]:
+                point = V.FAIL_POINTS[1]
+            h = rng.randint(1, N - 2)
+            at_step, at_rec = V.fail_step(point, h, dt, nd)
+            earlier = (ki % 2 == 0)
+            od = os.path.join(d, 'k%d' % ki)
+            os.makedirs(od)
+            m = model(rural, od, 'morph.epw', 1, dy, nd, dt, prec)
+            case = {'replay_kind': 'interrupted', 'rural file': 'first three weeks of resources/SGP_Singapore.486980_IWEC.epw', 'month': 1, 'day': dy,
+                    'nday': nd, 'dtsim': dt, 'epw_precision': prec, 'failure': kname,
+                    'raised': point.replace('hour h', 'hour %d' % h) + (' (step %d)' % at_step if at_step else ''),
+                    'an earlier complete run of the same object had written the output file': earlier,
+                    'how': 'harness/props/c01.py interrupted_family; v1_util.failing_physics (physics stubbed, the loop, the '
+                           'records and write_epw are real)'}
+            earlier_bytes = None
+            with core.quiet():
+                if earlier:                                  # a complete earlier run (another window) wrote the file
+                    m.day = dy + 1 if dy < 18 else dy - 1
+                    m.generate()
+                    with V.failing_physics(m, None):
+                        m.simulate()
+                    m.write_epw()
+                    earlier_bytes = open(m.new_epw_path, 'rb').read()
+                    m.day = dy
+                m.generate()
+            failed = None
+            with V.failing_physics(m, make, at_step=at_step, at_record=at_rec):
+                try:
+                    with core.quiet():
+                        m.simulate()
+                except BaseException as e:  # noqa: BLE001 - this is the caller who catches everything
+                    failed = type(e).__name__
+            n += 1
+            br[kname.split('(')[0]] = br.get(kname.split('(')[0], 0) + 1
+            if failed is None:
+                report('simulate() swallowed an exception raised inside a step', case, 'simulate() returned normally',
+                       'the exception reaches the caller')
+                continue
+            wrote = None
+            try:
+                with core.quiet():
+                    m.write_epw()
+                wrote = 'returned normally'
+            except BaseException as e:  # noqa: BLE001
+                wrote = 'raised %s' % type(e).__name__
+            outp = os.path.join(od, 'morph.epw')
+            now = open(outp, 'rb').read() if os.path.exists(outp) else None
+            have = [x for x in (getattr(m, 'UCMData', None) or []) if x is not None]
+            problem = None
+            if hashlib.sha256(open(rural, 'rb').read()).hexdigest() != h0:
+                problem = 'the rural file was modified'
+            elif wrote == 'returned normally' and len(have) < N:
+                k, first_same = (V.window_rows_rewritten(rural_rows, pyparse(outp), s, N) if now is not None else (None, None))
+                problem = ('write_epw() returned normally although simulate() had failed after %d of %d hours: the file it '
+                           'wrote has %s of the %d window rows rewritten (first window row left as in the rural file: hour %s)'
+                           % (len(have), N, k, N, first_same))
+            elif wrote != 'returned normally' and now != earlier_bytes:
+                problem = ('write_epw() %s and left %s under the output name' % (
+                    wrote, 'a file' if earlier_bytes is None else 'another content than the earlier complete file'))
+            if problem:
+                report('no partial morph after a failed / interrupted simulate()', case, problem,
+                       'write_epw() raises and writes nothing (an earlier file stays as it was), or writes the complete morph')
+                continue
+            # the normal sequence on the same object
+            try:
+                with core.quiet():
+                    m.generate()
+                    with V.failing_physics(m, None):
+                        m.simulate()
+                    m.write_epw()
+                msg = oracle_file(rural, m.new_epw_path, s, vals_of(m), prec, h0)
+                if not msg and open(m.new_epw_path, 'rb').read() != fresh_bytes:
+                    msg = 'the file differs from the file of a fresh object with the same parameters'
+            except Exception as e:  # noqa: BLE001
+                msg = 'the normal sequence raised %s: %s' % (type(e).__name__, str(e)[:160])
+            if msg:
+                report('generate(); simulate(); write_epw() on an object whose previous simulate() was interrupted', case, msg,
+                       'the same file as a fresh object writes')
+    if big:
+        # un-stubbed members: the package's own fail-stop (shipped Singapore parameters, dtsim = 900, hour 41 of 72), and a
+        # KeyboardInterrupt in the middle of a real run followed by the normal sequence (compared with a fresh real run)
+        d = os.path.join(work, 'real')
+        os.makedirs(d)
+        rural = os.path.join(d, 'rural.epw')
+        shutil.copy(src_epw, rural)
+        rural_rows = pyparse(rural)
+        h0 = hashlib.sha256(open(rural, 'rb').read()).hexdigest()
+        for (label, dt, nd, make, at) in [('the building model\'s own FATAL ERROR (dtsim = 900)', 900, 3, None, None),
+                                          ('KeyboardInterrupt in a real run', 300, 1, V.FAILURES[3][1], rng.randint(30, 250)),
+                                          ('SystemExit in a real run', 300, 2, V.FAILURES[4][1], rng.randint(290, 570))]:
+            od = os.path.join(d, label.split(' ')[0])
+            os.makedirs(od)
+            prec = rng.choice([2, 3])
+            m = model(rural, od, 'morph.epw', 1, 1, nd, dt, prec)
+            case = {'replay_kind': 'interrupted', 'rural file': 'resources/SGP_Singapore.486980_IWEC.epw', 'month': 1, 'day': 1,
+                    'nday': nd, 'dtsim': dt, 'epw_precision': prec, 'failure': label, 'raised': 'step %s' % at,
+                    'how': 'harness/props/c01.py interrupted_family (un-stubbed members)'}
+            failed = None
+            with core.quiet():
+                m.generate()
+            ctx = V.failing_physics(m, make, at_step=at, stub=False) if make else contextlib.nullcontext()
+            with ctx:
+                try:
+                    with core.quiet():
+                        m.simulate()
+                except BaseException as e:  # noqa: BLE001
+                    failed = '%s: %s' % (type(e).__name__, str(e)[:60])
+            n += 1
+            br['un-stubbed'] = br.get('un-stubbed', 0) + 1
+            if failed is None:
+                chk.notes.append('interrupted family: the un-stubbed run "%s" completed (no failure to study)' % label)
+                continue
+            N = 24 * nd
+            try:
+                with core.quiet():
+                    m.write_epw()
+                wrote = 'returned normally'
+            except BaseException as e:  # noqa: BLE001
+                wrote = 'raised %s' % type(e).__name__
+            outp = os.path.join(od, 'morph.epw')
+            have = [x for x in (getattr(m, 'UCMData', None) or []) if x is not None]
+            problem = None
+            if hashlib.sha256(open(rural, 'rb').read()).hexdigest() != h0:
+                problem = 'the rural file was modified'
+            elif wrote == 'returned normally' and len(have) < N:
+                k, first_same = V.window_rows_rewritten(rural_rows, pyparse(outp), 0, N) if os.path.exists(outp) else (None, None)
+                problem = ('write_epw() returned normally although simulate() had failed (%s) after %d of %d hours: the file has '
+                           '%s of the %d window rows rewritten (first window row left as in the rural file: hour %s)'
+                           % (failed, len(have), N, k, N, first_same))
+            elif wrote != 'returned normally' and os.path.exists(outp):
+                problem = 'write_epw() %s and left a file under the output name' % wrote
+            if problem:
+                report('no partial morph after a failed / interrupted simulate()', case, problem,
+                       'write_epw() raises and writes nothing, or writes the complete morph')
+                continue
+            if make:
+                fr = model(rural, os.path.join(od, 'fresh'), 'morph.epw', 1, 1, nd, dt, prec)
+                os.makedirs(os.path.join(od, 'fresh'))
+                try:
+                    with core.quiet():
+                        fr.generate(); fr.simulate(); fr.write_epw()
+                        m.generate(); m.simulate(); m.write_epw()
+                    msg = oracle_file(rural, m.new_epw_path, 0, vals_of(m), prec, h0)
+                    if not msg and open(m.new_epw_path, 'rb').read() != open(fr.new_epw_path, 'rb').read():
+                        msg = 'the file differs from the file of a fresh object with the same parameters'
+                except Exception as e:  # noqa: BLE001
+                    msg = None
+                    chk.notes.append('interrupted family: the un-stubbed normal sequence raised %s' % str(e)[:80])
+                if msg:
+                    report('generate(); simulate(); write_epw() on an object whose previous simulate() was interrupted', case, msg,
+                           'the same file as a fresh object writes')
+    chk.direct('no partial morph after a failed / interrupted simulate(); then the normal sequence = a fresh object', n, n,
+               'a copy of the first three weeks of the Singapore file, random start day, 1-3 days, dt 300 / 450 / 600 / 900, '
+               'epw_precision 0 / 2 / 3 / 4; the real generate(), the real step loop, records and write_epw with the physics '
+               'stubbed; inside simulate() a kernel raises - quick: two of Exception("FATAL ERROR...") / ValueError / '
+               'ZeroDivisionError and three of KeyboardInterrupt / SystemExit / GeneratorExit / MemoryError (thorough: all, three '
+               'scenarios) - in the first step / in the middle of an hour / in the step that completes an hour / inside the '
+               'psychrometrics call of a record / in the last step / in the first step of day 2; every other member after a '
+               'complete earlier run of the same object had written the output file. The caller catches (BaseException) and '
+               'calls write_epw(): it must raise, nothing may appear under the output name (an earlier file keeps its bytes), '
+               'rural hash unchanged - or the complete morph is written; then generate(); simulate(); write_epw() on the same '
+               'object: T2/T3 oracle and byte-equality with a fresh object', mismatches=bad, branches=br)
 
 
 # ----------------------------------------------------------------------------- run
@@ -1016,6 +1329,10 @@ def run(chk):
                'name, the rural file given through a symlink: rural bytes must be unchanged (the repaired code '
                'raises)', mismatches=bprot, branches=hows)
 
+    # ---------------------------------------------------------------- (y) round 5: names near the rural name; interrupted runs
+    near_name_family(chk, UWG)
+    interrupted_family(chk, UWG)
+
     # ---------------------------------------------------------------- (x) circumstances that must not matter
     circumstances(chk)
 
@@ -1084,6 +1401,11 @@ def replay(chk, path):
         cfg = (case['epw_path'], case['uwg_path'], case['month'], case['day'], case['nday'], case['dtsim'],
                case['precision'])
         msg = run_e2e(chk, UWG, 0, cfg)[2]
+    elif kind in ('near-name', 'interrupted'):
+        # the family is re-explored (same generators, same seed)
+        (near_name_family if kind == 'near-name' else interrupted_family)(chk, UWG)
+        if chk.violations:
+            msg = '%s: %s' % (chk.violations[0]['theorem_or_tie'], chk.violations[0]['observed'])
     elif 'circumstance' in case or 'interpreter' in case:
         # the circumstance families are re-explored (same generators, same seed)
         circumstances(chk)
